@@ -199,6 +199,11 @@ def validate(doc: dict, known_extensions=None) -> list[tuple[str, str, dict]]:
             kind = R.port_kind(s, "in", off)
             if kind[0] in ("value", "const", "function") and s["tag"] != "Case" and not D.in_links[(i, off)]:
                 E("input-connected", f"unconnected-{kind[0]}-input:{opn(i)}", node=i, offset=off)
+            # specification/hugr.md: "Incoming ports are associated with exactly one edge, or many ControlFlow edges"
+            # (state order ports may have many). The Rust validator does not check this; the specification does.
+            if kind[0] in ("value", "const", "function") and len(D.in_links[(i, off)]) > 1:
+                E("input-once", f"{kind[0]}-input-with-{'parallel' if len(set(D.in_links[(i, off)])) == 1 else 'several'}-edges:{opn(i)}",
+                  node=i, offset=off, sources=D.in_links[(i, off)][:4])
         for off in range(R.n_out(s)):
             kind = R.port_kind(s, "out", off)
             links = D.out_links[(i, off)]
